@@ -10,24 +10,33 @@ from .c06 import RG, base_inputs
 from .c05 import _kernels
 
 
-@job("c08.vortex_mesh", ("C08",), cfgs=[dict(nx=2, ny=2, side="left"), dict(nx=3, ny=2, side="left"), dict(nx=3, ny=3, side="right"), dict(nx=4, ny=3, side="left", _tier=T)],
+@job("c08.vortex_mesh", ("C08",), cfgs=[dict(specs=(("wing", 2, 2, "left"),)), dict(specs=(("wing", 3, 2, "left"),)), dict(specs=(("wing", 3, 3, "right"),)),
+                                         dict(specs=(("wing", 2, 2, "left"), ("tail", 3, 2, "right"))),
+                                         dict(specs=(("wing", 4, 3, "left"),), _tier=T)],
      ranges=RG + [(r"height_agl", 5.0, 20.0)], cost=5)
-def vortex_mesh(env, nx, ny, side):
-    """the image half of the vortex lattice is the reflection of the real half across the ground plane"""
+def vortex_mesh(env, specs):
+    """the image half of the vortex lattice of every surface is the reflection of its real half across the ground plane -
+    on a fresh component and on a live one that was last evaluated at another angle of attack, height or mesh"""
+    from .c16 import runs
     xp = env.xp
-    s = surface(name="wing", nx=nx, ny=ny, symmetry=True, side=side, groundplane=True)
-    h = env.comp("vm", lambda: cls("aerodynamics.vortex_mesh.VortexMesh")(surfaces=[s]))
+    surfs = [surface(name=n, nx=nx, ny=ny, symmetry=True, side=side, groundplane=True, xshift=3.0 * k) for k, (n, nx, ny, side) in enumerate(specs)]
+    fac = lambda: cls("aerodynamics.vortex_mesh.VortexMesh")(surfaces=surfs)
+    h = env.comp("vm", fac)
     ins = h.inputs()
-    out = h.compute(ins)["wing_vortex_mesh"]
     alpha = np.asarray(ins["alpha"]).reshape(-1)[0]              # VortexMesh takes alpha in radians
     hh = np.asarray(ins["height_agl"]).reshape(-1)[0]
     env.holds("C08", "VortexMesh declares alpha in radians (the group converts the user's degrees)", h.csx.units["alpha"] == "rad", str(h.csx.units["alpha"]))
-    env.eq("C08", "image lattice == reflection of the real lattice across the plane parallel to the free stream at height_agl below the origin",
-           out[nx:], vlm.reflect_ground(xp, out[:nx], alpha, hh))
-    # the real half is the quarter-chord lattice of the mirrored-in-y mesh (same as without ground effect)
-    s0 = surface(name="wing", nx=nx, ny=ny, symmetry=True, side=side, groundplane=False)
-    h0 = env.comp("vm0", lambda: cls("aerodynamics.vortex_mesh.VortexMesh")(surfaces=[s0]))
-    env.eq("C08", "real lattice is unchanged by enabling ground effect", out[:nx], h0.compute(dict(wing_def_mesh=ins["wing_def_mesh"]))["wing_vortex_mesh"])
+    surfs0 = [dict(s, groundplane=False) for s in surfs]
+    h0 = env.comp("vm0", lambda: cls("aerodynamics.vortex_mesh.VortexMesh")(surfaces=surfs0))
+    out0 = h0.compute({k: v for k, v in ins.items() if k.endswith("_def_mesh")})
+    for lab, o in runs(env, "vm", fac, ins):
+        for sf in surfs:
+            n, nx = sf["name"], sf["mesh"].shape[0]
+            out = o[n + "_vortex_mesh"]
+            env.eq("C08", "image lattice == reflection of the real lattice across the plane parallel to the free stream at height_agl below the origin [%s]%s" % (n, lab),
+                   out[nx:], vlm.reflect_ground(xp, out[:nx], alpha, hh))
+            # the real half is the quarter-chord lattice of the mirrored-in-y mesh (same as without ground effect)
+            env.eq("C08", "real lattice is unchanged by enabling ground effect [%s]%s" % (n, lab), out[:nx], out0[n + "_vortex_mesh"])
 
 
 @job("c08.images", ("C08",), cfgs=[dict(specs=(("wing", 2, 2, "left"),)), dict(specs=(("wing", 3, 2, "left"),)),
